@@ -475,3 +475,37 @@ def reaches(ins, tid, targets):
         if x.get("result"):
             todo.append(x["result"]["type"])
     return False
+
+
+def reset_cycle_nodes(ins):
+    """type ids on a cycle of the generated Reset() calls that passes through a union: Reset() of a
+    struct resets EVERY field whatever its mask, Reset() of a union switches to variant 0 (allocating
+    it when it is behind a pointer) and resets it.  A union whose first variant contains the union
+    again -- even under a local mask, where the TL default value is finite -- makes Reset() recurse
+    forever; every reader that resets an absent field of that type (TL1 included, on valid input) dies."""
+    g = {}
+    for x in ins:
+        out = []
+        if x["kind"] == "struct":
+            out = [f["type"] for f in x["fields"]]
+        elif x["kind"] == "union":
+            out = list(x.get("variants") or [])[:1]
+        elif x["kind"] == "array" and x.get("isTuple") and not x.get("dynamicSize"):
+            out = [x["elem"]["type"]]
+        g[x["id"]] = out
+    on_cycle = set()
+    for x in ins:
+        if x["kind"] != "union":
+            continue
+        start = x["id"]
+        seen, todo = set(), list(g[start])
+        while todo:
+            t = todo.pop()
+            if t == start:
+                on_cycle.add(start)
+                break
+            if t in seen or t is None or t < 0:
+                continue
+            seen.add(t)
+            todo += g.get(t, [])
+    return on_cycle
